@@ -7,14 +7,16 @@ ID = 'C13'
 TARGETS = ['MindsVerif.Props.C13']
 THEOREMS = ['MindsVerif.Props.C13.' + n for n in (
     'C13_lifting', 'C13_once', 'C13_unchanged', 'C13_of_schemaOK', 'C13_partial', 'C13_trace', 'C13_no_none_call', 'phi13', 'phi13_rest',
-    'phi13_uniform', 'phi13_clean', 'C13_witness_join', 'C13_witness_select', 'C13_witness_update', 'C13_witness_cte',
-    'C13_regress_coverage', 'C13_regress_window', 'C13_regress_cte')]
+    'phi13_uniform', 'phi13_clean', 'phi13_samples', 'C13_samples_textual', 'C13_regress_order', 'C13_regress_coverage',
+    'C13_regress_window', 'C13_regress_cte', 'walk_congr', 'C13_review_once_reordered', 'C13_review_replace_reordered',
+    'phi13_reordered')]
 ASSUME = [
     'Tie B: Gen/Schema.lean is probed from behaviour (tools/extract/x_schema.py); the uniformity assumption (a class is '
     'walked / printed the same whatever its children are) is checked by phi13_uniform and by the correspondence stream '
     '(real query_traversal vs the Lean walker instantiated with the probed schema, logging and replacing visitors)',
-    'specification reading: which child slots hold table references / targets / expressions / nested queries and which hold '
-    'names (aliases, object names, column-name lists, option dictionaries) is tools/harness/walkspec.py (SPEC, CORE, default rule)',
+    'specification data NOT derived from the code: which child slots hold table references / targets / expressions / nested '
+    'queries and which hold names (aliases, object names, column-name lists, option dictionaries) or containers is the '
+    'hand-written table tools/harness/walkspec.py (SPEC, CORE, default rule); the slot kinds of Gen/Schema.lean are copied from it',
     'textual order = order of first printed position in to_string(); replacements are nodes (list results spliced into '
     'Select.targets and falsy results are outside the model)',
     'rose trees carry no aliasing: parser trees that share a sub-object (e.g. Star of `t.*` after copy) are skipped by the '
@@ -152,7 +154,8 @@ def run(chk):
     chk.samples.append(dict(theorem='C13_lifting σ t : okTree σ t = true → C13_body σ t   (C13_body: a looking visitor is called '
                                     'exactly on `expected σ t` (textual preorder of the required nodes, flags = slot kinds), tree unchanged; '
                                     'a visitor answering r at x yields subst σ x r t)'))
-    chk.samples.append(dict(theorem='phi13 : namedDevs = knownDevs (the probed schema deviates exactly at the listed (class, slot, kind) triples)'))
+    chk.samples.append(dict(theorem='phi13 : namedDevs = knownDevs; phi13_samples : every parser tree of the sample statements emitted by the extractor is okTree; '
+                                    'C13_once : on an okTree the calls are a permutation of reqTags (every required node exactly once)'))
     return chk.finish(assumptions=ASSUME, extra=dict(
         schema_deviations=[d for c in schema['classes'].values() for d in c['deviations']],
         uncovered='classes never produced by the generators are not in the schema; a tree containing one is skipped by the '
